@@ -1,5 +1,7 @@
-(* When does a batch raise?  Never while at least k genes of the thinned array are still unchosen
-   (Model/SelectionK.v, C12 for genes_at_a_time = k). *)
+(* C12 for genes_at_a_time = k (Model/SelectionK.v), the clauses that the early stop of a batch gives
+   back: the FULL invariant J of SelectionP.v (every chosen gene marks a slot of the parent) is
+   preserved by every batch, hence spec_c12 holds on every completed run; and the exact length of a
+   batch: min(k, number of genes of positive utility when the batch is formed). *)
 From Coq Require Import ZArith List Bool Arith Lia Permutation.
 From CTM Require Import Base.Sx Base.ListX Base.SortX Model.Tree Model.Selection Model.SelectionK
                         Proofs.SelectionP Proofs.SelectionKP.
@@ -11,68 +13,125 @@ Variable n_genes : nat.
 Variable pairs : list nat.
 Variable marks : nat -> slot -> bool.
 Variable n : nat.
+Notation J := (J n_genes pairs marks n).
 Notation JK := (JK n_genes pairs marks n).
 Notation PI := (PI n_genes).
+Notation update_filled := (update_filled n_genes pairs marks n).
+Notation start := (start n_genes pairs marks n).
+Notation pool0 := (pool0 n_genes pairs marks n).
 
-(* some gene is still unchosen *)
-Lemma unchosen_exists st : JK st -> length (chosen st) < n_genes ->
-  exists g, g < n_genes /\ ~ In g (chosen st).
+(* ------------------------------------------------------------------ J is preserved *)
+Lemma popk_invJ j : forall st pool batch st2 pool2,
+  popk marks j st pool batch = POk st2 pool2 -> J st -> PI st pool -> J st2.
 Proof.
-  intros HJ L.
-  destruct (find (fun g => negb (nmem g (chosen st))) (genes n_genes)) as [g|] eqn:E.
-  - apply find_some in E. destruct E as [E1 E2]. apply negb_true_iff, nmem_false in E2.
-    exists g. split; [apply genes_in; exact E1 | exact E2].
-  - exfalso. assert (I : incl (genes n_genes) (chosen st)).
-    { intros g Hg. pose proof (find_none _ _ E g Hg) as H. cbv beta in H.
-      apply negb_false_iff, nmem_in in H. exact H. }
-    pose proof (NoDup_incl_length (genes_nodup n_genes) I) as B.
-    unfold genes in B. rewrite seq_length in B. lia.
-Qed.
-
-Lemma popk_no_raise j : forall st pool batch e,
-  JK st -> PI st pool -> j <= n_genes - length (chosen st) ->
-  popk marks j st pool batch <> PErr e.
-Proof.
-  induction j as [|j IH]; intros st pool batch e HJ HP Hj; cbn [popk].
-  - destruct batch; discriminate.
-  - destruct (unchosen_exists st HJ) as (g0 & G1 & G2); [lia|].
-    pose proof (PI_all _ _ _ HP g0 G1 G2) as Hin.
-    destruct pool as [|p0 pr] eqn:Ep; [destruct Hin|]. rewrite <- Ep in *.
-    destruct batch as [|g b]; [discriminate|].
+  induction j as [|j IH]; intros st pool batch st2 pool2 H HJ HP; cbn [popk] in H.
+  - destruct batch as [|g b]; [|discriminate]. inversion H; subst. exact HJ.
+  - destruct pool as [|p0 pr] eqn:Ep.
+    { destruct batch as [|g b]; [|discriminate]. inversion H; subst. exact HJ. }
+    rewrite <- Ep in *.
+    destruct batch as [|g b].
+    { destruct (exhausted st pool); [|discriminate]. inversion H; subst. exact HJ. }
     destruct (is_top st pool g) eqn:T; [|discriminate].
-    apply is_top_spec in T. destruct T as [T1 T2].
-    destruct (nmem g (chosen st)) eqn:C.
-    + exfalso. apply nmem_in in C. pose proof (JK_taken _ _ _ _ _ HJ g C) as Neg.
-      pose proof (JK_nonneg n_genes pairs marks n st g0 HJ G2) as Pos.
-      specialize (T2 g0 Hin). lia.
-    + apply nmem_false in C. apply IH.
-      * apply JK_choose; [exact HJ | exact C | apply (PI_genes _ _ _ HP); exact T1].
-      * apply PI_choose. exact HP.
-      * cbn [choose chosen]. rewrite app_length. cbn. lia.
+    destruct (utility st g <=? 0)%Z eqn:U; [discriminate|]. apply Z.leb_gt in U.
+    destruct (nmem g (chosen st)) eqn:C; [destruct b; discriminate|].
+    apply nmem_false in C. apply is_top_spec in T. destruct T as [T1 T2].
+    apply (IH _ _ _ _ _ H).
+    + apply J_choose; [exact HJ | exact C | apply (PI_genes _ _ _ HP); exact T1 |].
+      destruct (util_pos n_genes pairs marks n st g HJ C U) as (s & H1 & H2 & _). exists s. auto.
+    + apply PI_choose. exact HP.
 Qed.
 
-(* a batch of k genes cannot raise while at least k genes are unchosen: both exceptions need
-   k > (number of query genes of the thinned array not yet selected) *)
-Theorem batch_no_raise_when_enough_genes k st pool batch e :
-  JK st -> PI st pool -> k <= n_genes - length (chosen st) ->
-  stepk n_genes pairs marks n k st pool batch <> SRaise e.
-Proof.
-  intros HJ HP Hk. unfold stepk.
-  destruct (finished n_genes pairs (update_filled n_genes pairs marks n st)); [discriminate|].
-  pose proof (popk_no_raise k (update_filled n_genes pairs marks n st) (refresh n_genes pairs marks n st pool) batch) as H.
-  destruct (popk marks k (update_filled n_genes pairs marks n st) (refresh n_genes pairs marks n st pool) batch) as [a b|e'|] eqn:E;
-    try discriminate.
-  exfalso. apply (H e'); [apply JK_update; exact HJ | apply PI_refresh; exact HP | exact Hk | reflexivity].
-Qed.
-
-(* conversely a batch can only complete if at least k genes were unchosen *)
-Theorem batch_completes_only_with_enough_genes k st pool batch st' pool' :
-  JK st -> PI st pool -> stepk n_genes pairs marks n k st pool batch = SNext st' pool' ->
-  k <= n_genes - length (chosen st).
+Lemma stepk_invJ k st pool b st' pool' :
+  J st -> PI st pool -> stepk n_genes pairs marks n k st pool b = SNext st' pool' -> J st' /\ PI st' pool'.
 Proof.
   intros HJ HP H.
-  destruct (stepk_inv n_genes pairs marks n k _ _ _ _ _ HJ HP H) as [HJ' _].
-  destruct (batch_trace_legal n_genes pairs marks n k _ _ _ _ _ HJ HP H) as (L & Ch & _).
-  pose proof (chosenK_bound n_genes pairs marks n _ HJ') as B. rewrite Ch, app_length, L in B. lia.
+  destruct (stepk_inv n_genes pairs marks n k _ _ _ _ _ (J_JK _ _ _ _ _ HJ) HP H) as [_ HP'].
+  split; [|exact HP'].
+  apply stepk_next in H. destruct H as [_ H].
+  apply (popk_invJ _ _ _ _ _ _ H); [apply J_update; exact HJ | apply PI_refresh; exact HP].
+Qed.
+
+Lemma runk_invJ k trace : forall st pool i st',
+  J st -> PI st pool -> runk n_genes pairs marks n k st pool trace i = KDone st' -> J st'.
+Proof.
+  induction trace as [|b t IH]; intros st pool i st' HJ HP H; cbn [runk] in H.
+  - destruct (finished n_genes pairs (update_filled st)); [|discriminate]. inversion H; subst st'.
+    apply J_update. exact HJ.
+  - destruct (stepk n_genes pairs marks n k st pool b) as [st1 pool1|e|] eqn:S; [|destruct t; discriminate|discriminate].
+    destruct (stepk_invJ _ _ _ _ _ _ HJ HP S) as [HJ1 HP1]. apply (IH _ _ _ _ HJ1 HP1 H).
+Qed.
+
+(* every selected gene is a gene of the thinned array and a reference marker of at least one pair the
+   parent must discriminate - for every k, as for k = 1 *)
+Theorem batch_in_query_and_marker k prefix batches st :
+  replayk n_genes pairs marks n k prefix batches = KDone st ->
+  forall g, In g (chosen st) -> g < n_genes /\ exists p d, In p pairs /\ marks g (p, d) = true.
+Proof.
+  unfold replayk. destruct (list_eqb prefix (chosen start)); [|discriminate]. intros H g Hg.
+  pose proof (runk_invJ _ _ _ _ _ _ (J_start n_genes pairs marks n) (PI_pool0 n_genes pairs marks n) H) as HJ.
+  split; [apply (J_genes _ _ _ _ _ HJ g Hg)|].
+  destruct (J_useful _ _ _ _ _ HJ g Hg) as ([p d] & H1 & H2). exists p, d.
+  split; [apply (slot_in pairs p d); exact H1 | exact H2].
+Qed.
+
+(* the executable statement of C12 itself (not only spec_c12_batch) on every completed run *)
+Theorem batch_full_spec k prefix batches st :
+  no_gene_both_ways marks ->
+  replayk n_genes pairs marks n k prefix batches = KDone st ->
+  spec_c12 n_genes pairs marks n (chosen st) = true.
+Proof.
+  intros Hb H. unfold spec_c12. rewrite !andb_true_iff. split; [split|].
+  - apply nodup_b_spec. apply (batch_no_duplicates n_genes pairs marks n k _ _ _ H).
+  - apply forallb_forall. intros g Hg.
+    destruct (batch_in_query_and_marker _ _ _ _ H g Hg) as (L & p & d & Hp & Hm).
+    apply andb_true_iff. split; [apply Nat.ltb_lt; exact L|].
+    apply existsb_exists. exists (p, d). split; [apply slot_in; exact Hp | exact Hm].
+  - apply forallb_forall. intros p Hp. apply Nat.leb_le.
+    pose proof (batch_coverage n_genes pairs marks n k _ _ _ Hb H p Hp) as C.
+    rewrite (covered_split marks (genes n_genes) p Hb) in C. exact C.
+Qed.
+
+(* ------------------------------------------------------------------ totality *)
+(* the replay never ends in the exception, and the fuelled deterministic loop ends in `break` *)
+Theorem batch_total k :
+  1 <= k ->
+  (forall prefix batches e, replayk n_genes pairs marks n k prefix batches <> KRaise e) /\
+  exists st, greedyk n_genes pairs marks n k (S n_genes) start pool0 = GDone st.
+Proof.
+  intros Hk. split; [exact (batch_never_raises n_genes pairs marks n k)|].
+  destruct (batch_terminates n_genes pairs marks n k Hk) as (tr & st & H & _). exists st. exact H.
+Qed.
+
+(* ------------------------------------------------------------------ the exact length of a batch *)
+(* number of genes of positive utility (all of them unchosen: a chosen gene has a negative utility) *)
+Definition n_useful (st : state) : nat := count (fun g => (0 <? utility st g)%Z) (genes n_genes).
+
+Theorem batch_length_exact k st pool batch st' pool' :
+  JK st -> PI st pool -> stepk n_genes pairs marks n k st pool batch = SNext st' pool' ->
+  length batch = Nat.min k (n_useful (update_filled st)).
+Proof.
+  intros HJ HP H.
+  destruct (batch_trace_legal n_genes pairs marks n k _ _ _ _ _ HJ HP H) as (_ & L & Ch & ND & Lg & Sh).
+  pose proof (JK_update _ _ _ _ _ HJ) as HJ1.
+  set (st1 := update_filled st) in *.
+  set (pos := filter (fun g => (0 <? utility st1 g)%Z) (genes n_genes)).
+  assert (Epos : n_useful st1 = length pos) by reflexivity.
+  (* the batch consists of distinct genes of positive utility *)
+  assert (I1 : incl batch pos).
+  { intros g Hg. apply in_split in Hg. destruct Hg as (b1 & b2 & E).
+    destruct (Lg b1 g b2 E) as (G1 & _ & G3 & _).
+    apply filter_In. split; [apply genes_in; exact G1 | apply Z.ltb_lt; exact G3]. }
+  pose proof (NoDup_incl_length ND I1) as B1.
+  destruct (Nat.lt_ge_cases (length batch) k) as [Lt|Ge]; [|rewrite Epos; lia].
+  (* a short batch holds every gene of positive utility *)
+  assert (I2 : incl pos batch).
+  { intros h Hh. apply filter_In in Hh. destruct Hh as [H1 H2]. apply genes_in in H1. apply Z.ltb_lt in H2.
+    destruct (nmem h (chosen st')) eqn:C.
+    - apply nmem_in in C. rewrite Ch in C. apply in_app_iff in C. destruct C as [C|C]; [|exact C].
+      exfalso. change (chosen st) with (chosen st1) in C.
+      pose proof (JK_taken _ _ _ _ _ HJ1 h C). lia.
+    - apply nmem_false in C. pose proof (Sh Lt h H1 C). lia. }
+  assert (NDp : NoDup pos) by (apply NoDup_filter, genes_nodup).
+  pose proof (NoDup_incl_length NDp I2) as B2. rewrite Epos. lia.
 Qed.
 End Safe.
